@@ -85,3 +85,25 @@ pub fn add_group_keys(matter: &Matter<'_>, fab_idx: NonZeroU8, groups: &[(u16, u
         }
     })
 }
+
+/// Like `install_session` for a CASE session on fabric `fab`.
+#[allow(dead_code, clippy::too_many_arguments)]
+pub fn install_session_fab(
+    matter: &Matter<'_>,
+    rng: SeededRng,
+    fab: u8,
+    local_node: u64,
+    peer_node: u64,
+    local_sess: u16,
+    peer_sess: u16,
+    peer_addr: Address,
+    dec: &CanonAeadKey,
+    enc: &CanonAeadKey,
+) -> Result<(), Error> {
+    let c = crypto(rng);
+    let mut session = ReservedSession::reserve_now(matter, &c)?;
+    let mode = SessionMode::Case { fab_idx: NonZeroU8::new(fab).unwrap(), cat_ids: NocCatIds::default() };
+    session.update(local_node, peer_node, peer_sess, local_sess, peer_addr, mode, Some(dec.reference()), Some(enc.reference()), None, None)?;
+    session.complete();
+    Ok(())
+}
